@@ -116,5 +116,15 @@ def main(tier, seed):
     items = ss[:: (5 if quick else 1)] + ts[:: (3 if quick else 1)]
     pairs += [('%s~%s' % (a[0], b[0]), [a[1], b[1]]) for a, b in itertools.combinations(items, 2)]
     if quick: pairs = pairs[::2]
+    # operand order of every ordered binary constructor / ordered container must be visible in the rendering (always checked)
+    sw = []
+    for k_ in ('DifferenceExtension', 'DifferenceIntension', 'Inheritance', 'Implication', 'ImplicationPredictive', 'ImplicationConcurrent', 'ImplicationRetrospective', 'EquivalencePredictive'):
+        sw.append(('swapped/' + k_, [('Term', (k_, a_, b_)), ('Term', (k_, b_, a_))]))
+        sw.append(('swapped-nested/' + k_, [('Term', ('Inheritance', (k_, a_, b_), c_)), ('Term', ('Inheritance', (k_, b_, a_), c_))]))
+    for k_ in ('Product', 'ConjunctionSequential'):
+        sw.append(('swapped/' + k_, [('Term', (k_, [a_, b_])), ('Term', (k_, [b_, a_]))]))
+    for k_ in ('ImageExtension', 'ImageIntension'):
+        sw += [('swapped/%s@%d' % (k_, i_), [('Term', (k_, i_, [a_, b_])), ('Term', (k_, i_, [b_, a_]))]) for i_ in (0, 1, 2)]
+    pairs = sw + pairs
     R.run_query(Query('pairs', 'c16', 'path_pair', [dict(name=nm, specs=sp) for nm, sp in pairs], '%d pairs of value shapes' % len(pairs)), confirm, key_of)
     return R.finish(rule='one state = one path rendering one value (or a pair); obligations decided by z3 over the output characters', trusted=['rustc MIR', 'mirsym + std models (validated per path)', 'z3'])
